@@ -127,10 +127,42 @@ def gen_case(rng, i):
                                                              "glue": not (r1.endswith("\n") and r2.endswith("\n")) or inline_nested(r1) or inline_nested(p)}
 
 
+def with_indent(W, P):
+    """Spec.withIndent: W after every line break of P except a final one"""
+    out = []
+    for i, ch in enumerate(P):
+        out.append(ch)
+        if ch == "\n" and i + 1 < len(P):
+            out.append(W)
+    return "".join(out)
+
+
+def thm_case(rng, i):
+    """the family of the Lean theorem C12.standalone_partial_is_indented: L0 ++ W ++ {{> p}} ++ (LF|CRLF) ++ R with p a plain text;
+    the expectation is the theorem's closed form  L0 ++ W·P ++ R  (exact)"""
+    from .C03 import _no_open, rand_text
+    L0 = rng.pick(["", _no_open(rand_text(rng, rng.range(0, 8))) + "\n", "x\n", "a\r\n", "\n\n"])
+    W = "".join(rng.pick([" ", " ", "\t"]) for _ in range(rng.range(1, 6)))
+    nl = rng.pick(["\n", "\r\n"])
+    R = _no_open(rand_text(rng, rng.range(0, 8)))
+    P = "".join(rng.pick(list("ab}<& \t") + ["\n", "\n", "\r\n", "é", "{"]) for _ in range(rng.range(1, 12)))
+    P = _no_open(P)
+    if P.endswith("\\") or P == "":
+        P += "x"
+    exp = L0 + ("" if P[0] in "\n\r" else W) + with_indent(W, P) + R
+    ops = [{"op": "reg_string", "reg": 0, "name": "p", "src": P},
+           {"op": "render", "reg": 0, "api": "render_template", "src": L0 + W + "{{> p}}" + nl + R, "data": enc({})}]
+    return {"kind": "session", "regs": [{"escape": "none"}], "ops": ops}, {"thm": True, "expect": exp, "W": W, "where": "thm", "n": 1, "pi": False, "p": P}
+
+
 def generate(rng, n, tier="quick"):
     out = []
     for i in range(n):
-        c, m = gen_case(rng.fork(i), i)
+        r = rng.fork(i)
+        if r.chance(0.15):
+            c, m = thm_case(r, i)
+        else:
+            c, m = gen_case(r, i)
         c["id"] = "%s-%06d" % (ID, i)
         out.append((c, m))
     # listed witness of F13
@@ -188,6 +220,11 @@ def oracle(case, meta, impl):
     if impl.get("r") != "session":
         return ["no result"]
     rs = impl["results"]
+    if meta.get("thm"):
+        l = rs[-1]
+        if l.get("r") == "ok" and l.get("out") == meta["expect"]:
+            return []
+        return ["standalone partial (theorem family): expected %r got %r" % (meta["expect"], l.get("out", l.get("reason", l.get("r"))))]
     n = meta["n"]
     main = rs[-(n + 1)]
     alone = rs[-n:]
